@@ -17,6 +17,21 @@ import traceback
 assert os.environ.get("VERIF_PLAIN") == "1"
 
 
+def exception_origin(e):
+    """'code' if the innermost non-library frame of the traceback is in the code
+    under test (TOLA_SRC), 'harness' if it is in the harness / vlib"""
+    import traceback as tb
+    src = os.path.realpath(os.environ.get("TOLA_SRC", "/repo/src"))
+    frames = tb.extract_tb(e.__traceback__)
+    for fr in reversed(frames):
+        fn = fr.filename
+        if fn.startswith("<harness") or "/vlib/" in fn or fn.startswith("<"):
+            return "harness"
+        if os.path.realpath(fn).startswith(src):
+            return "code"
+    return "harness"
+
+
 def main():
     req = json.loads(sys.argv[1])
     prop, cond_name, args, kwargs = req["prop"], req["cond"], req["args"], req.get("kwargs") or {}
@@ -45,8 +60,13 @@ def main():
                 out = {"reproduced": not bool(r), "observed": f"returned {r!r}"}
             except Exception as e:  # noqa: BLE001
                 ok = type(e).__name__ in allowed
+                origin = exception_origin(e)
+                if origin == "harness":
+                    # the harness itself is broken (NameError, assertion in an oracle ...): never a violation
+                    ok = None
                 out = {
-                    "reproduced": not ok,
+                    "reproduced": (not ok) if ok is not None else None,
+                    "exception_origin": origin,
                     "observed": f"raised {type(e).__name__}: {str(e)[:300]}",
                     "traceback": traceback.format_exc()[-1500:],
                 }
